@@ -1,6 +1,7 @@
 //! C16: text, comparison, case-mapping, arithmetic and range commands compute the documented
 //! function (one unit: bytes).  Case tables / calc helpers: c16ext.rs.
 use super::c16ext as x;
+use super::c16f64 as fl;
 use crate::rng::Rng;
 use crate::sdkenv::*;
 use crate::wire::*;
@@ -256,11 +257,6 @@ fn domain(cmd: &str, args: &[String]) -> bool {
             let len = args[0].len() as i64;
             !args[1..].iter().take(2).any(|a| strict_i64(a) == Some(len))
         }
-        "less_than" | "greater_than" if args.len() == 2 => {
-            let num = |s: &str| s.parse::<f64>().is_ok();
-            // either an error case, or both plain decimals of at most 15 digits
-            !(num(&args[0]) && num(&args[1])) || (small_dec(&args[0]).is_some() && small_dec(&args[1]).is_some())
-        }
         _ => true,
     }
 }
@@ -298,6 +294,19 @@ fn calc_case(args: Vec<String>, tag: &'static str) -> Case {
     }
     Case { req: format!("calc {}", enc_list(&args)), in_domain: true, nontrivial: !args.is_empty(), tags }
 }
+fn bits_case(lit: &str, tag: &'static str) -> Case {
+    Case { req: format!("f64bits {}", enc_str(lit)), in_domain: true, nontrivial: !lit.is_empty(), tags: vec!["f64bits", tag] }
+}
+fn float_tags(a: &str) -> &'static str {
+    match a.parse::<f64>() {
+        Err(_) => "f64:rejected",
+        Ok(v) if v.is_nan() => "f64:nan",
+        Ok(v) if v.is_infinite() => if fl::read_exact(a).map(|e| matches!(e, fl::Exact::Inf(_))).unwrap_or(false) { "f64:inf-literal" } else { "f64:overflow" },
+        Ok(v) if v == 0.0 => if fl::read_exact(a).map(|e| matches!(e, fl::Exact::Dec(_, ref s, _) if s.is_empty())).unwrap_or(false) { "f64:zero" } else { "f64:underflow" },
+        Ok(v) if v.abs() < f64::MIN_POSITIVE => "f64:subnormal",
+        Ok(_) => if a.len() > 17 { "f64:long" } else { "f64:normal" },
+    }
+}
 fn tag_of(cmd: &str) -> &'static str {
     TEXT2.iter().chain(["range", "less_than", "greater_than"].iter()).find(|c| **c == cmd).copied().unwrap_or("other")
 }
@@ -307,7 +316,7 @@ impl Prop for C16Prop {
         "C16"
     }
     fn rule(&self) -> &'static str {
-        "fixed: substring over 8 texts (ASCII, multi-byte, empty) x all index pairs in [-2,len+2]^2, all single indexes in [-len-2,len+2], 30 integer spellings; every two-text command over 7x7 texts incl. empty and needle longer than haystack; every command with 0..3 arguments; 44 float spellings squared through less_than/greater_than; range over 30 integer spellings. Random: texts over {a,b,space,comma,e-acute,CJK,emoji,A,z,tab} (0..8 scalars), needles cut from the haystack / longer than it / empty / random, indexes in [-2,len+2] and odd integer spellings, decimals with sign, fraction, up to 15 digits. All through the real SDK commands (arguments passed by variable). Non-trivial = some argument non-empty; distinct = distinct request. uppercase/lowercase over ALL of Unicode: every character with a case mapping (in chunks, every run), Greek words with capital sigma in every position and context (cased / case-ignorable / uncased neighbours, combining marks), multi-character mappings (dotted I, sharp s, n-apostrophe, ligatures, title-case digraphs), 4-byte scripts, long texts; the four case tables of the model are compared with the installed toolchain over all code points (casetab). calc: expressions over integer and decimal literals, + - *, unary minus, parentheses, ^ with a literal exponent, depth <= 4, three in ten with values beyond 2^53 / 2^63 (powers, products of float literals), negative, zero and fractional results, i64 overflow of integer-typed sub-expressions (error result); handed to the real command as one argument per token / one argument / arbitrary cuts; verdicts: exact class - the printed decimal read EXACTLY as a fraction equals the rational value; otherwise within 1e-9 relative of the typed f64 evaluation and within a rigorous rounding bound of the exact i128 rational value. Index equal to the length (substring) and floats beyond 15-digit decimals (less_than/greater_than) are outside the domain."
+        "fixed: substring over 8 texts (ASCII, multi-byte, empty) x all index pairs in [-2,len+2]^2, all single indexes in [-len-2,len+2], 30 integer spellings; every two-text command over 7x7 texts incl. empty and needle longer than haystack; every command with 0..3 arguments; 44 float spellings squared through less_than/greater_than; 81 fixed f64 literals (ties around 2^53, the overflow threshold and the exact midpoint to 2^1024, 2^-1074 and its exact half with neighbours in the 750th digit, smallest normal / largest subnormal, 1e400 / 1e-400 / 1e99999999999, zeros, inf/nan spellings) each through `f64bits` (model of correctly rounded dec2flt vs str::parse::<f64>, 64-bit pattern) and every PAIR of them through both commands; 64 malformed spellings; range over 30 integer spellings. Random: texts over {a,b,space,comma,e-acute,CJK,emoji,A,z,tab} (0..8 scalars), needles cut from the haystack / longer than it / empty / random, indexes in [-2,len+2] and odd integer spellings, decimals with sign, fraction, up to 15 digits. One random case in four is an f64 case (3 in 4 of them a command, 1 in 4 `f64bits`): random bit patterns printed shortest / 17 digits / 21 digits / positionally and respelled (point moved, exponent written, up to 420 zeros appended or prepended), exact decimal expansions of midpoints between adjacent doubles and the same +/- one unit in the last digit or with 0..01 appended, subnormals, 16..40 digit literals, exponents in +-345, +-400, +-99999 and up to 27 exponent digits, integers around 2^53..2^64, `.5` / `5.` forms, inf/nan in mixed case, damaged literals; the second operand is equal / one unit in the last digit away / the same with more digits / the double 0..2 ulps away / the midpoint towards the neighbour (2 in 3) or independent. Verdict on the implementation alone (relation): an independent reader of the literal grammar and an exact decimal order on digit strings (no floating point) - the error result exactly on non-literals, `true` only if numerically true and never against the exact order, NaN compares false, and exact equality with integer cross-multiplication on plain decimals of at most 15 digits; `f64bits`: accepted exactly when the independent reader accepts, sign bit = the literal's sign, a zero-mantissa literal reads as a zero, infinity/NaN literals read as such. All through the real SDK commands (arguments passed by variable). Non-trivial = some argument non-empty; distinct = distinct request. uppercase/lowercase over ALL of Unicode: every character with a case mapping (in chunks, every run), Greek words with capital sigma in every position and context (cased / case-ignorable / uncased neighbours, combining marks), multi-character mappings (dotted I, sharp s, n-apostrophe, ligatures, title-case digraphs), 4-byte scripts, long texts; the four case tables of the model are compared with the installed toolchain over all code points (casetab). calc: expressions over integer and decimal literals, + - *, unary minus, parentheses, ^ with a literal exponent, depth <= 4, three in ten with values beyond 2^53 / 2^63 (powers, products of float literals), negative, zero and fractional results, i64 overflow of integer-typed sub-expressions (error result); handed to the real command as one argument per token / one argument / arbitrary cuts; verdicts: exact class - the printed decimal read EXACTLY as a fraction equals the rational value; otherwise within 1e-9 relative of the typed f64 evaluation and within a rigorous rounding bound of the exact i128 rational value. Index equal to the length (substring) is outside the domain; every less_than/greater_than case is inside (the model answers for every literal)."
     }
     fn budget(&self, tier: Tier) -> usize {
         match tier {
@@ -363,7 +372,10 @@ impl Prop for C16Prop {
         // numerically CLOSE operands (a comparison done in lower precision, e.g. f32, is wrong here)
         for (a, b) in [("16777216", "16777217"), ("-16777216", "-16777217"), ("4294967296", "4294967297"),
                        ("1700000000", "1700000001"), ("123456789", "123456790"), ("999999999999998", "999999999999999"),
-                       ("0.1", "0.10000000001"), ("1.0000001", "1.00000011"), ("33554432.5", "33554433.5"), ("2147483647", "2147483648")] {
+                       ("0.1", "0.10000000001"), ("1.0000001", "1.00000011"), ("33554432.5", "33554433.5"), ("2147483647", "2147483648"),
+                       // ties: 2^53 + 1 is halfway between two doubles and rounds to the even one, 2^53
+                       ("9007199254740992", "9007199254740993"), ("9007199254740993", "9007199254740994"), ("-9007199254740992", "-9007199254740993"),
+                       ("18014398509481984", "18014398509481986"), ("0.1", "0.1000000000000000055511151231257827"), ("1e23", "9.999999999999999e22")] {
             for (x, y) in [(a, b), (b, a), (a, a)] {
                 out.push(case_of("less_than", vec![s(x), s(y)], "close-numbers"));
                 out.push(case_of("greater_than", vec![s(x), s(y)], "close-numbers"));
@@ -373,6 +385,24 @@ impl Prop for C16Prop {
             for b in FLOATS {
                 out.push(case_of("less_than", vec![s(a), s(b)], "float-spelling"));
                 out.push(case_of("greater_than", vec![s(a), s(b)], "float-spelling"));
+            }
+        }
+        // the f64 reader itself (model of correctly rounded dec2flt vs the toolchain), then every
+        // pair of the fixed literals through both commands
+        for a in fl::F64_FIXED.iter().chain(fl::MALFORMED.iter()).chain(FLOATS.iter()) {
+            out.push(bits_case(a, "f64bits-fixed"));
+            out.push(bits_case(&format!("-{}", a), "f64bits-fixed"));
+        }
+        for a in fl::F64_FIXED {
+            for b in fl::F64_FIXED {
+                out.push(case_of("less_than", vec![s(a), s(b)], "f64-fixed-pairs"));
+                out.push(case_of("greater_than", vec![s(a), s(b)], "f64-fixed-pairs"));
+            }
+        }
+        for a in fl::MALFORMED {
+            for (x, y) in [(*a, "1"), ("1", *a), (*a, "nan"), (*a, *a)] {
+                out.push(case_of("less_than", vec![s(x), s(y)], "f64-malformed"));
+                out.push(case_of("greater_than", vec![s(x), s(y)], "f64-malformed"));
             }
         }
         for t in ["", " ", " a ", "\u{a0}x\u{3000}", "\t\n a b \r\n", "漢 ", " é"] {
@@ -423,6 +453,22 @@ impl Prop for C16Prop {
         out
     }
     fn generate(&self, rng: &mut Rng, _tier: Tier) -> Case {
+        // one case in four: the f64 reader and the two comparison commands over every kind of literal
+        if rng.chance(1, 4) {
+            let a = fl::gen_lit(rng);
+            if rng.chance(1, 4) {
+                let mut c = bits_case(&a, "f64bits-random");
+                c.tags.push(float_tags(&a));
+                return c;
+            }
+            let b = if rng.chance(2, 3) { fl::gen_related(&a, rng) } else { fl::gen_lit(rng) };
+            let cmd = *rng.pick(&["less_than", "greater_than"]);
+            let (ta, tb) = (float_tags(&a), float_tags(&b));
+            let mut c = case_of(cmd, if rng.chance(1, 2) { vec![a, b] } else { vec![b, a] }, tag_of(cmd));
+            c.tags.push(ta);
+            c.tags.push(tb);
+            return c;
+        }
         let k = rng.below(31);
         if k >= 27 {
             let e = x::gen_calc(rng);
@@ -477,6 +523,9 @@ impl Prop for C16Prop {
         if let Some(which) = req.strip_prefix("casetab ") {
             return x::casetab_of_toolchain(which);
         }
+        if let Some(t) = req.strip_prefix("f64bits ") {
+            return fl::bits_of_toolchain(&dec_str(t).unwrap_or_default());
+        }
         if req.starts_with("calc ") {
             let args = calc_args(req);
             return match (run_calc(&args), model_out) {
@@ -502,6 +551,20 @@ impl Prop for C16Prop {
     fn relation(&self, req: &str, _m: &str, imp: &str) -> Option<bool> {
         if req.starts_with("casetab ") {
             return None;
+        }
+        if let Some(t) = req.strip_prefix("f64bits ") {
+            // accepted exactly when the independent grammar reader accepts; the sign bit is the
+            // literal's sign; a literal infinity / NaN reads as such
+            let lit = dec_str(t)?;
+            return Some(match fl::read_exact(&lit) {
+                None => imp == "ERR",
+                Some(fl::Exact::Nan) => imp == "NAN",
+                Some(fl::Exact::Inf(neg)) => imp == if neg { "fff0000000000000" } else { "7ff0000000000000" },
+                Some(fl::Exact::Dec(neg, sig, _)) => {
+                    let b = u64::from_str_radix(imp, 16).ok()?;
+                    (b >> 63 == neg as u64) && (!sig.is_empty() || b << 1 == 0) && (b << 1 >> 53 != 2047 || b << 12 == 0)
+                }
+            });
         }
         if req.starts_with("calc ") {
             // ordinary arithmetic, computed here (independent of the model)
@@ -631,14 +694,38 @@ impl Prop for C16Prop {
                     let (l, r) = (m1 * 10i128.pow(s2), m2 * 10i128.pow(s1));
                     Some(ok_bool(imp)? == if cmd == "less_than" { l < r } else { l > r })
                 }
-                _ => None,
+                // every other pair: the exact decimal order (digit strings, no floating point).
+                // The answer `true` must be numerically true, and a pair in the opposite exact order
+                // is never answered `true`; NaN compares false; non-literals give the error result
+                _ => match (fl::read_exact(&args[0]), fl::read_exact(&args[1])) {
+                    (Some(ea), Some(eb)) => {
+                        let r = ok_bool(imp)?;
+                        let (ea, eb) = if cmd == "less_than" { (ea, eb) } else { (eb, ea) };
+                        match fl::exact_lt(&ea, &eb) {
+                            None => Some(!r),
+                            Some(lt) => Some(!r || lt),
+                        }
+                    }
+                    _ => Some(imp == "err"),
+                },
             },
             _ => None,
         }
     }
+    fn outcome_kind(&self, imp: &str) -> String {
+        let t = imp.split(' ').next().unwrap_or("");
+        if t.len() == 16 && t.chars().all(|c| c.is_ascii_hexdigit()) {
+            return "f64-bits".into();
+        }
+        if t.len() <= 24 && t.chars().all(|c| c.is_ascii_alphabetic() || c == '-') { t.to_string() } else { "other".to_string() }
+    }
     fn shrink(&self, req: &str) -> Vec<String> {
         if req.starts_with("casetab ") {
             return vec![];
+        }
+        if let Some(t) = req.strip_prefix("f64bits ") {
+            let cs: Vec<char> = dec_str(t).unwrap_or_default().chars().collect();
+            return (0..cs.len()).map(|j| format!("f64bits {}", enc_str(&cs.iter().enumerate().filter(|(k, _)| *k != j).map(|(_, c)| *c).collect::<String>()))).collect();
         }
         if req.starts_with("calc ") {
             return match x::read_text(&calc_args(req).join(" ")) {
@@ -661,6 +748,9 @@ impl Prop for C16Prop {
     fn describe(&self, req: &str) -> String {
         if req.starts_with("casetab ") {
             return req.to_string();
+        }
+        if let Some(t) = req.strip_prefix("f64bits ") {
+            return format!("f64bits {:?}", dec_str(t).unwrap_or_default());
         }
         if req.starts_with("calc ") {
             return format!("calc {:?}", calc_args(req));
